@@ -932,6 +932,12 @@ package gorm
 //@   loop "range fields" entry-do allUnset = 1
 //@   loop "range fields" invariant every-returning-value-so-far-is-unset: allUnset == 1
 //@   loop "range fields" exit-do checkedUnset = allUnset
+//@ site returning-value-probe
+//@   match calldyn Field.ValueOf
+//@   in gorm.Scan
+//@   min-sites 1
+//@   assume-after field-readers-do-not-scan: allUnset == ite(result1, old(allUnset), 0)
+//@   assert probes-the-record-about-to-be-filled: arg1 == elem [C03]
 //@ site returned-row-goes-to-an-unset-record
 //@   match call gorm.(*DB).scanIntoStruct
 //@   in gorm.Scan
